@@ -79,6 +79,10 @@ class C02(DocProp):
             yield {"kind": "text", "text": " ".join(words) + "\n", "feats": ["typo-hazard"], "profile": "typo-hazard",
                    "opts": [rand_opts(r, widths=[r.randint(6, 40)], force={"ellipses": True, "smartquotes": False}),
                             rand_opts(r, widths=[r.randint(6, 40)], force={"ellipses": True, "smartquotes": r.random() < 0.5})]}
+            if r.random() < 0.1:
+                # sub-workload of the listed finding KF-C02-list-inside-footnote-definition (G-doc keeps lists out of footnotes)
+                yield {"kind": "text", "text": "[^1]: para one\n\n    - a\n    - b\n\n    " + r.choice(["```\n    code\n    ```", "> quote", "more text"]) + "\n\nx[^1]\n",
+                       "feats": ["footnote-list"], "profile": "footnote-list", "opts": [rand_opts(r, widths=[0, 30, 88])]}
             # a number-dot word and an inline tag in one paragraph (listed finding KF-C02-escaped-number-in-tag-paragraph;
             # G-doc keeps the two apart)
             n = r.randint(6, 14)
@@ -184,6 +188,11 @@ class C02(DocProp):
             flat = lambda t: re.sub(r"\s+", " ", re.sub(r"(?m)^[ >]+", "", unesc(t))).strip()  # noqa: E731
             if flat(o1) == flat(o2):
                 return "C02/nonidempotent/caused-by/escaped-number-in-tag-paragraph"
+        if not o.get("plaintext") and re.search(r"(?m)^\[\^[^\]\n]+\]:", o1) and re.search(r"(?m)^ {4,}(?:[-*+]|\d+[.)]) ", o1) and \
+                o1.split() == o2.split():
+            # a list inside a footnote definition: marko reads the items (and what follows them) one level deeper than they are
+            # written, so every pass indents the blocks after the list further. Checked: the passes differ in white space only (indentation, the blank lines of a list that became nested, re-wrapping at the deeper indent).
+            return "C02/nonidempotent/caused-by/list-inside-footnote-definition"
         if tag_boundaries(text) != tag_boundaries(o1):
             return "C02/nonidempotent/caused-by/tag-newline-created-by-pass1"
         kind = line_kind(d[1] or d[2] or "")
